@@ -1113,7 +1113,7 @@ def dict_method(interp, d: dict, name, args, kwargs):
     if name == "items":
         return _DictView([(k.v if type(k).__name__ == "_SymKey" else k, v) for k, v in d.items()])
     if name == "keys":
-        return [k.v if type(k).__name__ == "_SymKey" else k for k in d.keys()]
+        return _KeyList(k.v if type(k).__name__ == "_SymKey" else k for k in d.keys())
     if name == "values":
         return list(d.values())
     if name == "copy":
@@ -1153,6 +1153,8 @@ def smap_method(interp, m: SMap, name, args, kwargs):
         return default
     if name == "copy":
         return m.copy()
+    if name == "keys":
+        return m  # only membership is meaningful on an unbounded key set (`k in m.keys()` == `k in m`)
     if name == "update" and len(args) == 1 and not kwargs:
         o = args[0]
         if isinstance(o, dict):
@@ -1257,9 +1259,29 @@ def _json_ufs():
     )
 
 
+class _KeyList(list):
+    """dict.keys() of a dict with (possibly symbolic) keys: supports `in`, iteration and `-` (set difference)"""
+
+
+def keys_difference(interp, a, b):
+    out = _KeyList()
+    for x in a:
+        t = sym.contains_term(interp.ctx, x, list(b))
+        if t is True:
+            continue
+        if t is False or not interp.ctx.branch(t, "key also in the other map"):
+            out.append(x)
+    return out
+
+
 def json_decode(interp, s):
     dh, dv, _ = _json_ufs()
     zs = zstr(s)
+    known = interp.ctx.ghost.get("json_known", {})
+    if _key(zs) in known:
+        # the prelude installed this text as the encoding of a map with a known (bounded) key set: decode to that map
+        interp.used_models.add("json: loads/dump are an uninterpreted codec with loads(dump(m)) == m; the file holds a str->str object")
+        return dict(known[_key(zs)])
     interp.used_models.add("json: loads/dump are an uninterpreted codec with loads(dump(m)) == m; the file holds a str->str object")
     return SMap(dh(zs), dv(zs), sym.TStr(), sym.TStr())
 
